@@ -35,7 +35,7 @@ Ops(w) ==
      {[name |-> nm, h |-> h, n |-> n, c |-> c, card |-> card] :
           nm \in {"new_sec", "new_prop"}, n \in Names \cup {NONE}, c \in C \cup {NONE}, card \in {"none", "ok", "bad"}} \cup
      {[name |-> nm, h |-> h, n |-> n, c |-> c] :
-          nm \in {"create_sec", "create_prop"}, n \in Names \cup {NONE}, c \in C})
+          nm \in {"create_sec", "create_prop", "create_prop_badvals"}, n \in Names \cup {NONE}, c \in C})
 
 Expandable(w) == /\ \A x \in PoolIds : w.kind[x] = "unborn"
                  /\ \A x \in DOMAIN w.name : w.name[x] \in Names \cup {"-"}
